@@ -135,3 +135,34 @@ prop('C20',
      nontrivial=lambda u: True,
      rule='the four witness counters are read through a recording MetricFactory before and after every Update of the C09 histories; compared with the model and with the increments implied by the verdict',
      exhaustive=True)
+
+prop('C02',
+     modules=['WitnessVerif.Props.C02'],
+     scenarios=lambda tier: [sc('notemut')] + ([sc('hist', n=40)] * 2 if tier == 'quick' else [sc('notemut', n=12)] + [sc('hist', n=400)] * 6),
+     diverge={'U': {'err', 'post', 'oracle'}},
+     nontrivial=lambda u: u.get('class', '').startswith('mut.') or u.get('class', '').startswith('corrupt') or u.get('class') in ('crossLog', 'unknownLog', 'shape'),
+     rule='mutation streams over one valid checkpoint per configuration (every k-th single-bit flip, every k-th truncation, line deletions/duplications/swaps/insertions of CR, TAB, NBSP, U+2028, 0xFF, 0x01, signature-block edits, cross-log and cross-origin replays with shared keys, unknown IDs) on a witness with 3 logs (two sharing a key), with and without stored state; monitor: accepted => the submitted bytes authenticate under the configured verifier and origin (verifier queries recorded from the real verifier)',
+     assumptions=['unforgeability of Ed25519 is outside the statement: theorems are relative to the verification predicate'])
+
+prop('C10',
+     modules=['WitnessVerif.Props.C10'],
+     scenarios=lambda tier: [sc('bastion', n=30 if tier == 'quick' else 300)] * (4 if tier == 'quick' else 10),
+     diverge={'H': {'status', 'ctype', 'rbody', 'post', 'oracle'}},
+     nontrivial_line=lambda k, line: k == 'H',
+     rule='requests through the real addHandler (built as FeedBastion builds it, real witness + real witnessAdapter behind it, in-memory and SQLite) in states reached by earlier requests through the same endpoint: honest growth/refresh (200), stale (409 + size), old size above checkpoint (400), same size other root (409), bad proof (422), bad signature (403), unknown origin (404), ten malformed variants (400), arbitrary mutations, limiter 0/s and 3/s (429); status, content type, body and witness state compared with the model; independent ed25519 verification of the returned cosignature lines',
+     assumptions=['TLS 1.3/HTTP-2 reverse connection and token-bucket timing are not modelled (in-process handler); the limiter is a Bool input of the model'])
+
+prop('C11',
+     modules=['WitnessVerif.Props.C11'],
+     scenarios=lambda tier: [sc('parsebody'), sc('prooffmt'), sc('lib')],
+     diverge={'PB': None, 'PFR': None, 'PFU': None, 'B64D': None, 'B64E': None, 'PUINT': None},
+     nontrivial_line=lambda k, line: k in ('PB', 'PFR', 'PFU'),
+     rule='bodies written as cmd/feedbastion writes them (old sizes incl. 0, 2^63, 2^64-1; 0..64 hashes of 1..64 bytes; checkpoints with blank lines, non-UTF-8, no trailing newline) parsed by the real parseBody and compared with what was written; mutated/malformed stream (bit flips, truncations, CRLF, 23 malformed old-size lines, >4096-character lines, CR at the buffer boundary, non-canonical base64) compared with the model; Proof.Marshal/Unmarshal round trip incl. the empty list and empty hashes, mutated proof texts')
+
+prop('C19',
+     modules=['WitnessVerif.Props.C19'],
+     scenarios=lambda tier: [sc('bastion', n=30 if tier == 'quick' else 300)] * (3 if tier == 'quick' else 8) + [sc('parsebody'), sc('prooffmt')],
+     diverge={'H': {'status'}, 'PB': None, 'PFU': None},
+     nontrivial_line=lambda k, line: k in ('H', 'PB', 'PFU') and ('class=mutated' in line or 'malformed' in line or k == 'PFU'),
+     rule='arbitrary and mutated bytes against the add-checkpoint handler (panics recovered and reported), parseBody and Proof.Unmarshal; status must be in {200,400,403,404,409,422,429,500}',
+     assumptions=['memory safety and panics inside dependencies are only exercised'])
